@@ -373,15 +373,23 @@ def main(tier):
         for inp in stress_inputs(tier):
             stats["inputs"] += 1
             feats0 = {f"input:{inp['label']}", f"strategy:{inp['strategy']}"}
-            runs, outputs, baseline = explore(inp, bound, None, rep, stats, feats0 | {"history:fresh"})
+            runs, outputs, baseline = explore(inp, 1, None, rep, stats, feats0 | {"history:fresh"})
             stats["runs"] += runs
+            # two simultaneous deviations (thorough tier) where the one-deviation space is small enough to square: the bound completed is
+            # recorded per input, a larger input stays at one deviation rather than being capped half-way
+            ibound = 2 if (bound >= 2 and runs <= 130) else 1
+            stats.setdefault("deviation_bound_per_input", {})[inp["label"]] = ibound
+            if ibound == 2:
+                runs2, outputs2, _ = explore(inp, 2, None, rep, stats, feats0 | {"history:fresh"})
+                stats["runs"] += runs2
+                outputs.update(outputs2)
             if baseline is None or baseline.get("error"):
                 continue
             pdir = os.path.join(work, "prior-" + inp["label"])
             os.makedirs(pdir)
             prior = make_prior(inp, pdir)
             if prior:
-                r2, out2, base2 = explore(inp, min(bound, 1) if tier == "quick" else bound, prior, rep, stats, feats0 | {"history:regenerate"})
+                r2, out2, base2 = explore(inp, ibound, prior, rep, stats, feats0 | {"history:regenerate"})
                 stats["runs"] += r2
                 if base2 and base2["hashes"] != baseline["hashes"]:
                     diff = sorted(k for k in set(base2["hashes"]) | set(baseline["hashes"]) if base2["hashes"].get(k) != baseline["hashes"].get(k))
